@@ -34,7 +34,7 @@ CHECKS = {
     ),
     "C05": (
         "Hypothesis-generated multisets of patterns of all kinds built in every order + exhaustive small classical multisets; oracle = containment-minimal elements and brute-force class equality",
-        "Each multiset is built in all orders (<=24) and with repetitions through every constructor (lists, tuples, one-shot iterators, strings 0/1-based); results must be equal, hash-equal, antichains, equal to the reference minimal elements, fixed points, same class, same Av object. Light sweep of every pair of classical patterns of lengths up to (6, 7) (3.7 million pairs in the quick tier).",
+        "Each multiset is built in all orders (<=24) and with repetitions through every constructor (lists, tuples, one-shot iterators, strings 0/1-based); results must be equal, hash-equal, antichains, equal to the reference minimal elements, fixed points, same class, same Av object. Light sweep of every pair of classical patterns of lengths up to (6, 7) (3.7 million pairs in the quick tier). Near-contained mesh pairs: a longer pattern whose shading is the union of the regions of a shorter one's cells with cells taken out.",
         "Trusted: oracle mesh-in-mesh containment. Bounded: <=4 patterns, lengths <=4 (mesh <=3), class equality to n=5.",
         "DESIGN.md 4/C05",
     ),
@@ -46,7 +46,7 @@ CHECKS = {
     ),
     "C08": (
         "Hypothesis-generated pairs/triples across the pattern hierarchy + exhaustive small worlds; oracle = algebraic laws; hash lifetimes under generated allocation histories",
-        "Equivalence laws, equal-implies-equal-hash, strict total order laws and operator consistency on every pair of mesh-type representations of patterns of length <=1, all pairs of permutations of length <=4, generated triples incl. twins; hash stability across allocation bursts and set/dict lookups through equal twins.",
+        "Equivalence laws, equal-implies-equal-hash, strict total order laws and operator consistency on every pair of mesh-type representations of patterns of length <=1, all pairs of permutations of length <=4, generated triples incl. twins; hash stability across allocation bursts and set/dict lookups through equal twins. Permutations of 5-12 points sharing all but the last few entries (comparisons decided late).",
         "Trusted: the laws themselves; (length, lex) order on tuples. Cross-family symmetry of == is deliberately not asserted (see evidence assumptions).",
         "DESIGN.md 4/C08",
     ),
@@ -82,7 +82,7 @@ CHECKS = {
     ),
     "C07": (
         "schedule-owning thread harness (sys.settrace preemption at every line of permset.py, cooperative replacement of the class lock) driven by Hypothesis-generated and PCT-style schedules; sequential brute-force model as oracle; real-thread stress run",
-        "Each case is (basis, 2-4 thread programs, schedule); every lock permset.py holds or creates (class attributes, class-level dicts, multiprocessing/threading Lock/RLock made lazily) is made cooperative, whatever the locking scheme; exactly one thread runs at a time so the run is a pure function of code and case and shrinks/replays as one value; every query result is compared with the sequential answer, exceptions and deadlocks are violations. Exploration: schedules are sampled, not enumerated. Lazily consumed enumerations with a scheduling point per item, threads racing to construct the class, parked deep builds against near-member / tail-occurrence membership queries.",
+        "Each case is (basis, 2-4 thread programs, schedule); every lock permset.py holds or creates (class attributes, class-level dicts, multiprocessing/threading Lock/RLock made lazily) is made cooperative, whatever the locking scheme; exactly one thread runs at a time so the run is a pure function of code and case and shrinks/replays as one value; every query result is compared with the sequential answer, exceptions and deadlocks are violations. Exploration: schedules are sampled, not enumerated. Lazily consumed enumerations with a scheduling point per item, threads racing to construct the class, parked deep builds against near-member / tail-occurrence membership queries, membership queries for the basis elements themselves.",
         "Preemption granularity = one source line of permset.py; library code called from there runs atomically. A foreign blocking primitive introduced by a change shows up as a harness stall (exit 2), not as a violation.",
         "DESIGN.md 3.5, 4/C07",
     ),
@@ -100,7 +100,7 @@ CHECKS = {
     ),
     "C15": (
         "exhaustive enumeration of (single-permutation basis, direction word) pairs + generated bases; oracle = semantic language (reference containment on the decoded pin sequence), own product/cycle search on the automaton's transition table",
-        "All four construction routes must accept exactly the words of M whose encoded permutation contains a basis element (all words up to length 9/10); has_finite_pinperms against an own cycle search with semantic confirmation in both directions; database vs scratch by own product BFS. Automaton of a single pin word against its regular expression, exhaustive transition cover for strict pin words to 8 letters (11); bases with permutations without pin words; a 7-point pin permutation of the exceptional shape; listing orders with interleaved lengths.",
+        "All four construction routes must accept exactly the words of M whose encoded permutation contains a basis element (all words up to length 9/10); has_finite_pinperms against an own cycle search with semantic confirmation in both directions; database vs scratch by own product BFS. Automaton of a single pin word against its regular expression, exhaustive transition cover for strict pin words to 8 letters (11); bases with permutations without pin words; a 7-point pin permutation of the exceptional shape; listing orders with interleaved lengths; bases closed under symmetries of the square (5-6 point pin permutations and their images).",
         "Words of length < 2 encode nothing. Semantic 'finite' confirmation needs l*+1 <= 11.",
         "DESIGN.md 4/C15",
     ),
@@ -118,13 +118,13 @@ CHECKS = {
     ),
     "C19": (
         "Hypothesis-generated bases around the strategies' boundaries + all subsets of the needed patterns; oracle = hypotheses re-implemented on tuples with reference containment; metamorphic invariance under order, repetition and the eight symmetries",
-        "find_strategies (quick and slow) and every Strategy(basis).applies() are compared with the re-implemented hypotheses for every symmetric image and order variant.",
+        "find_strategies (quick and slow) and every Strategy(basis).applies() are compared with the re-implemented hypotheses for every symmetric image and order variant. Exhaustive form sweep: each strategy's needed patterns plus every single further element of length 2-7 (8 thorough).",
         "Basis elements of length >= 2. FinitelyManySimples line trusts PinWords.has_finite_simples (C16). Rd2134/Ru2143 shapes are documented only by code.",
         "DESIGN.md 4/C19",
     ),
     "C20": (
         "model-based stateful testing with fault injection (op-list strategy + Hypothesis RuleBasedStateMachine) over a scratch directory; exhaustive check of all shipped data against the family definitions; automaton database histories with own language-equivalence BFS",
-        "Write/rewrite/read/delete/truncate/empty/garbage histories against a dict model of the directory, including user files named like the shipped data sets (never written / written then deleted); every shipped (family, length) is a duplicate-free partition of S_k with good = the family by the C12 oracle definitions; loaded automata are language-equivalent to fresh ones after any store/create/load/forget history. User files named like shipped data sets; databases with automata of permutations without pin words; create_dfa_db_for_length as a whole (lengths to 4 quick, 6 thorough).",
+        "Write/rewrite/read/delete/truncate/empty/garbage histories against a dict model of the directory, including user files named like the shipped data sets (never written / written then deleted); every shipped (family, length) is a duplicate-free partition of S_k with good = the family by the C12 oracle definitions; loaded automata are language-equivalent to fresh ones after any store/create/load/forget history. User files named like shipped data sets; databases with automata of permutations without pin words; create_dfa_db_for_length as a whole (lengths to 4 quick, 6 thorough); equinumerous properties so that successive outputs have equal size and different content.",
         "Fault model = missing, truncated, emptied, non-JSON bytes. Two emptied len9 files are asserted to be reported invalid and skipped.",
         "DESIGN.md 4/C20",
     ),
